@@ -829,4 +829,14 @@ example : alwaysHeld acq rel mutates
     (.seq (.ev (.act ⟨.acquired, "self._lock"⟩)) (.seq (.ev (.act ⟨.release, "self._lock"⟩))
       (.ev (.act ⟨.call, "self._send_handlers.append"⟩)))) = false := by decide +kernel
 
+/-- **every answer restarts the handler's clock** (the base class of every handler, threaded and awaitable alike): each normal end of
+`handled` / `async_handled` has called `_reset_timeout` - unconditionally, whether or not the handler is about to be removed - so
+the timeout scan that follows in the same engine iteration cannot take the request it has just seen answered for a timed-out one -/
+theorem every_answer_restarts_the_clock :
+    everyNormalEndDid (fun a => a.kind == .call && a.name == "self._reset_timeout")
+      sk_driver_udp_protocol_handler__GeckoUdpProtocolHandler_handled = true ∧
+    everyNormalEndDid (fun a => a.kind == .call && a.name == "self._reset_timeout")
+      sk_driver_udp_protocol_handler__GeckoUdpProtocolHandler_async_handled = true ∧
+    actions .brT sk_driver_udp_protocol_handler__GeckoUdpProtocolHandler__reset_timeout = [] := by decide +kernel
+
 end GeckoModel.C20.Locking
